@@ -1199,6 +1199,8 @@ func (s *ScopedKeyManager) nextAddresses(ns walletdb.ReadWriteBucket,
 	// and add the addresses to the cache after the newly generated
 	// addresses have been successfully committed to the db.
 	onCommit := func() {
+		verifPoint("nextaddr.oncommit")
+
 		// Since this closure will be called when the DB transaction
 		// gets committed, we won't longer be holding the manager's
 		// mutex at that point. We must therefore re-acquire it before
